@@ -6,20 +6,11 @@ func NewCapModel() *CapModel         { return &CapModel{} }
 func (c *CapModel) Clone() *CapModel { return &CapModel{} }
 func (c *CapModel) Hash() string     { return "" }
 
-type ContractModel struct{}
-
-func NewContractModel() *ContractModel         { return &ContractModel{} }
-func (c *ContractModel) Clone() *ContractModel { return &ContractModel{} }
-func (c *ContractModel) Hash() string          { return "" }
 
 func (o Op) codeCaps(k int) (string, bool)                       { return "", false }
 func (m *Model) applyCaps(o Op, pr *Pred) (string, bool)         { return "", false }
-func (o Op) codeContracts(k int) (string, bool)                  { return "", false }
-func (m *Model) applyContracts(o Op, pr *Pred) (string, bool)    { return "", false }
 func (o Op) codeHostSvc(k int) (string, bool)                    { return "", false }
 func (m *Model) applyHostSvc(o Op, pr *Pred) (string, bool)      { return "", false }
-func (o Op) extraImport() string                                 { return "" }
 
 func (g *Gen) capOp() Op      { return g.storageOp() }
-func (g *Gen) contractOp() Op { return g.storageOp() }
 func (g *Gen) hostSvcOp() Op  { return g.storageOp() }
